@@ -65,7 +65,7 @@ func (w *World) sortSliceCall(fr *Frame, st *State, name string, args []*Val) {
 	sl := x.Dyn
 	et := sl.Typ.Underlying().(*types.Slice).Elem()
 	es := w.sortOf(et)
-	key := w.elemsKey(es)
+	key := w.elemsKeyT(et)
 	n := slen(sl.T)
 	evalLess := func(tag string) (Term, Term, Term, Term) {
 		s2 := st.clone()
